@@ -11,7 +11,7 @@
    model needed a second marker for it; now the cursor clause is proved outright.) *)
 From Coq Require Import ZArith List Bool Lia.
 Import ListNotations.
-From Urwid Require Import WidgetDims WidgetDimsProofs WidgetDimsFrame WidgetDimsOverlay WidgetDimsColsArith WidgetDimsCols WidgetDimsTree.
+From Urwid Require Import WidgetDims WidgetDimsProofs WidgetDimsFrame WidgetDimsOverlay WidgetDimsColsArith WidgetDimsCols WidgetDimsTree WidgetDimsFixed WidgetDimsFixedPile WidgetDimsFixedTree.
 Open Scope Z_scope.
 
 Definition WellFormed (w : widget) : Prop := wf_b w = true.
@@ -51,6 +51,25 @@ Proof.
   exact (render_contract_from_good (denote w) sz f (contract_by_structural_induction w Hw Hf Hl) Hn Hv).
 Qed.
 Print Assumptions render_contract_partial.
+
+(* ---- FIXED sizing: render(()) has exactly the size pack(()) reports, for leaves, AttrMap / LineBox
+        delegation, Padding with a given or pack width whose min_width does not exceed the width (the
+        other fixed Paddings are the known finding refuted below), Overlay with a given or relative
+        width, and Pile (its 'pack' items are flow widgets by WellFormed: a fixed-only 'pack' item is the
+        known finding "Pile does not pad fixed-only children"); nodes that do not claim FIXED sizing are
+        never asked.  [fixed_fragment] says exactly which nodes are covered; Columns in fixed mode is not. ---- *)
+Theorem fixed_contract_partial :
+  forall w f, leaves_ok w -> leaves_fx w -> WellFormed w -> proved_fragment w = true -> fixed_fragment w = true ->
+    s_fixed (m_sizing (denote w)) = true ->
+    match m_render (denote w) SFixed f with
+    | Ok d => meets (denote w) SFixed f d          (* pack(()) = (cols, rows) of the canvas; rect; cursor inside *)
+    | Err e => soft e
+    end.
+Proof.
+  intros w f Hl Hx Hw Hp Hf Hs.
+  exact (gx_render _ (fixed_contract_by_induction w Hw Hp Hf Hl Hx) Hs f).
+Qed.
+Print Assumptions fixed_contract_partial.
 
 (* the same induction also gives what containers rely on: rows() is positive and pack((c,)) agrees with it *)
 Theorem rows_and_pack_partial :
@@ -281,4 +300,34 @@ Example linebox_renders :
   m_render (denote (linebox (WLeaf edit_leaf))) (SFlow 9) true = Ok (mkC 9 3 (Some (1, 1)) true)
   /\ m_rows (denote (linebox (WLeaf edit_leaf))) 9 true = Ok 3
   /\ m_render (denote (linebox (WLeaf solid_leaf))) (SBox 6 4) false = Ok (mkC 6 4 None true).
+Proof. vm_compute. repeat split; reflexivity. Qed.
+
+(* ---- FIXED sizing examples ---- *)
+Lemma line_fx : GoodFx (leaf_sem line_leaf).
+Proof. apply leaf_fx_sufficient; intros _ f; cbn; repeat split; auto; lia. Qed.
+Lemma wrap_fx : GoodFx (leaf_sem wrap_leaf).
+Proof. apply leaf_fx_sufficient; intros _ f; cbn; repeat split; auto; lia. Qed.
+
+Theorem pile_fixed_contract : forall l fp, l <> [] -> Forall pfx_ok l -> GoodFx (pile_sem l fp).
+Proof. exact pile_fx. Qed.
+Print Assumptions pile_fixed_contract.
+
+(* AttrMap(Padding(Text("ab cd"), 'center', 'pack', left=1, right=2)) and an Overlay of a given size *)
+Definition fixed_sample : widget := WAttr (WPadding (WLeaf wrap_leaf) 50 WPack None 1 2).
+Definition fixed_overlay : widget :=
+  WOverlay (WLeaf wrap_leaf) (WLeaf solid_leaf) (mkOv 50 (WGiven 3) 50 HPack None None 1 0 0 1).
+Example fixed_samples_in_scope :
+  WellFormed fixed_sample /\ proved_fragment fixed_sample = true /\ fixed_fragment fixed_sample = true
+  /\ m_pack (denote fixed_sample) SFixed false = Ok (8, 1)
+  /\ m_render (denote fixed_sample) SFixed false = Ok (mkC 8 1 None true)
+  /\ WellFormed fixed_overlay /\ proved_fragment fixed_overlay = true /\ fixed_fragment fixed_overlay = true
+  /\ m_pack (denote fixed_overlay) SFixed false = Ok (4, 3)
+  /\ m_render (denote fixed_overlay) SFixed false = Ok (mkC 4 3 None true)
+  (* the refuted Padding is outside the fixed fragment *)
+  /\ fixed_fragment padding_fixed_witness = false
+  (* Pile([('pack', Text("ab cd")), Text("a")]) as a fixed widget *)
+  /\ (let p := WPile (PCons (WLeaf wrap_leaf) KPack 0 (PCons (WLeaf line_leaf) KWeight 1 PNil)) 0 in
+      WellFormed p /\ proved_fragment p = true /\ fixed_fragment p = true
+      /\ m_pack (denote p) SFixed false = Ok (5, 2)
+      /\ m_render (denote p) SFixed false = Ok (mkC 5 2 None true)).
 Proof. vm_compute. repeat split; reflexivity. Qed.
